@@ -86,6 +86,8 @@ Record oracle := mkOracle {
   fparse : str -> option spec_float;
 }.
 
+Definition no_oracle_v : oracle := mkOracle (fun _ => [63%N]) (fun _ => None).
+
 (* ---- IEEE helpers (binary64) ---- *)
 Definition prec := 53%Z.
 Definition emax := 1024%Z.
